@@ -9,7 +9,8 @@ import TsV.Lemmas.C15_Spec
 3. per lexer: what one doc string does to the lexer (`line_okOn`, `tsDoc_okOn`, `pyDoc_okOn`);
 4. per renderer: `contained = all (not Bad)`;
 8. the repaired TypeScript / Python printers never write `*/` / an unescaped `\"\"\"` (`ts_escape_no_close`,
-   `py_escape_ok`), and their escaping functions are `str::replace` (`ts_escape_eq_replace`, `py_escape_eq_replace`);
+   `py_escape_ok`), and their escaping functions are `str::replace` (`ts_escape_eq_replace`, `py_escape_eq_replace`:
+   Python doubles backslashes first, then escapes `\"\"\"`);
 9. the parser's comment entries contain neither `\n` nor `\r` (`entries_no_break`) and only characters of
    the doc strings (`entries_any`);
 10. `contained_entries`: on parser entries, `contained = !KnownScalaSub`.
@@ -622,30 +623,31 @@ theorem ts_escape_no_close (c : Str) : Str.containsSub (TypeScript.escapeDoc c) 
           simp [Str.startsWith, this]
       · simp [Str.startsWith, hx]
 
-/-! ### Python: `\"\"\"` written as `\\\"\\\"\\\"` -/
-theorem py_escape_head (r : Str) (h : (Python.escapeDoc r).head? = some '"') : r.head? = some '"' := by
+/-! ### Python: backslashes doubled, then `\"\"\"` written as `\\\"\\\"\\\"` -/
+/-! the second replacement alone already leaves no unescaped `\"\"\"`, whatever it is applied to -/
+theorem py_quotes_head (r : Str) (h : (Python.escapeQuotes r).head? = some '"') : r.head? = some '"' := by
   match r with
-  | [] => simp [Python.escapeDoc] at h
-  | [a] => simpa [Python.escapeDoc] using h
-  | [a, b] => simpa [Python.escapeDoc] using h
+  | [] => simp [Python.escapeQuotes] at h
+  | [a] => simpa [Python.escapeQuotes] using h
+  | [a, b] => simpa [Python.escapeQuotes] using h
   | a :: b :: c :: r' =>
-    simp only [Python.escapeDoc] at h
+    simp only [Python.escapeQuotes] at h
     split at h
     · simp at h
     · simpa using h
 
-theorem py_escape_starts2 (r : Str) (h : Str.startsWith (Python.escapeDoc r) s%"\"\"" = true) :
+theorem py_quotes_starts2 (r : Str) (h : Str.startsWith (Python.escapeQuotes r) s%"\"\"" = true) :
     Str.startsWith r s%"\"\"" = true := by
   match r with
-  | [] => simp [Python.escapeDoc, Str.startsWith] at h
-  | [a] => simpa [Python.escapeDoc] using h
-  | [a, b] => simpa [Python.escapeDoc] using h
+  | [] => simp [Python.escapeQuotes, Str.startsWith] at h
+  | [a] => simpa [Python.escapeQuotes] using h
+  | [a, b] => simpa [Python.escapeQuotes] using h
   | a :: b :: c :: r' =>
-    simp only [Python.escapeDoc] at h
+    simp only [Python.escapeQuotes] at h
     split at h
     · simp [Str.startsWith] at h
-    · have hh := py_escape_head (b :: c :: r')
-      cases he : Python.escapeDoc (b :: c :: r') with
+    · have hh := py_quotes_head (b :: c :: r')
+      cases he : Python.escapeQuotes (b :: c :: r') with
       | nil => rw [he] at h; simp [Str.startsWith] at h
       | cons y t =>
         rw [he] at h hh
@@ -654,36 +656,43 @@ theorem py_escape_starts2 (r : Str) (h : Str.startsWith (Python.escapeDoc r) s%"
         simp at this
         simp [Str.startsWith, h.1, this]
 
-theorem py_escape_ok (c : Str) :
-    unescapedTripleQuote false (Python.escapeDoc c) = false ∧
-    unescapedTripleQuote true (Python.escapeDoc c) = false := by
-  induction c using Python.escapeDoc.induct with
+theorem py_quotes_ok (c : Str) :
+    unescapedTripleQuote false (Python.escapeQuotes c) = false ∧
+    unescapedTripleQuote true (Python.escapeQuotes c) = false := by
+  induction c using Python.escapeQuotes.induct with
   | case1 c c2 c3 r h ih =>
-    simp [Python.escapeDoc, h, unescapedTripleQuote, Str.startsWith, ih.1]
+    simp [Python.escapeQuotes, h, unescapedTripleQuote, Str.startsWith, ih.1]
   | case2 c c2 c3 r h ih =>
-    have e : Python.escapeDoc (c :: c2 :: c3 :: r) = c :: Python.escapeDoc (c2 :: c3 :: r) := by
-      simp [Python.escapeDoc, h]
+    have e : Python.escapeQuotes (c :: c2 :: c3 :: r) = c :: Python.escapeQuotes (c2 :: c3 :: r) := by
+      simp [Python.escapeQuotes, h]
     rw [e]
     refine ⟨?_, by simp [unescapedTripleQuote, ih.1]⟩
     by_cases hb : c = '\\'
     · simp [unescapedTripleQuote, hb, ih.2]
     · simp only [unescapedTripleQuote, hb, if_false, ih.1, Bool.or_false]
-      cases hs : Str.startsWith (c :: Python.escapeDoc (c2 :: c3 :: r)) s%"\"\"\"" with
+      cases hs : Str.startsWith (c :: Python.escapeQuotes (c2 :: c3 :: r)) s%"\"\"\"" with
       | false => rfl
       | true =>
         exfalso
         simp only [Str.startsWith, Bool.and_eq_true, beq_iff_eq] at hs
-        have h2 := py_escape_starts2 (c2 :: c3 :: r) (by simpa [Str.startsWith] using hs.2)
+        have h2 := py_quotes_starts2 (c2 :: c3 :: r) (by simpa [Str.startsWith] using hs.2)
         simp [Str.startsWith] at h2
         exact h ⟨hs.1, h2.1, h2.2⟩
   | case3 s h =>
     match s, h with
-    | [], _ => simp [Python.escapeDoc, unescapedTripleQuote]
-    | [a], _ => by_cases ha : a = '\\' <;> simp [Python.escapeDoc, unescapedTripleQuote, Str.startsWith, ha]
+    | [], _ => simp [Python.escapeQuotes, unescapedTripleQuote]
+    | [a], _ => by_cases ha : a = '\\' <;> simp [Python.escapeQuotes, unescapedTripleQuote, Str.startsWith, ha]
     | [a, b], _ =>
       by_cases ha : a = '\\' <;> by_cases hb : b = '\\' <;>
-        simp [Python.escapeDoc, unescapedTripleQuote, Str.startsWith, ha, hb]
+        simp [Python.escapeQuotes, unescapedTripleQuote, Str.startsWith, ha, hb]
     | a :: b :: c :: r, h => exact absurd rfl (h a b c r)
+
+/-- the docstring writer (`escapeDoc` = backslashes doubled, then `\"\"\"` escaped): the written
+text has no unescaped `\"\"\"` -/
+theorem py_escape_ok (c : Str) :
+    unescapedTripleQuote false (Python.escapeDoc c) = false ∧
+    unescapedTripleQuote true (Python.escapeDoc c) = false :=
+  py_quotes_ok (Python.escapeBackslashes c)
 
 /-! ### the model's escaping functions are `str::replace` -/
 
@@ -718,8 +727,8 @@ theorem ts_escape_eq_replace (c : Str) :
     TypeScript.escapeDoc c = Str.replaceSub c s%"*/" s%"*\\/" := by
   simp [Str.replaceSub, ts_escape_go c.length c (Nat.le_refl _)]
 
-theorem py_escape_go (fuel : Nat) : ∀ s : Str, s.length ≤ fuel →
-    Str.replaceSub.go s%"\"\"\"" s%"\\\"\\\"\\\"" fuel s = Python.escapeDoc s := by
+theorem py_quotes_go (fuel : Nat) : ∀ s : Str, s.length ≤ fuel →
+    Str.replaceSub.go s%"\"\"\"" s%"\\\"\\\"\\\"" fuel s = Python.escapeQuotes s := by
   induction fuel with
   | zero => intro s h; cases s with
     | nil => rfl
@@ -729,27 +738,57 @@ theorem py_escape_go (fuel : Nat) : ∀ s : Str, s.length ≤ fuel →
     match s with
     | [] => rfl
     | [a] =>
-      simp [Str.replaceSub.go, Python.escapeDoc, Str.startsWith, ih [] (by simp)]
+      simp [Str.replaceSub.go, Python.escapeQuotes, Str.startsWith, ih [] (by simp)]
     | [a, b] =>
       have := ih [b] (by simp at h ⊢; omega)
-      simp [Str.replaceSub.go, Python.escapeDoc, Str.startsWith, this]
+      simp [Str.replaceSub.go, Python.escapeQuotes, Str.startsWith, this]
     | a :: b :: c :: r =>
       have h1 : (b :: c :: r).length ≤ fuel := by simp at h ⊢; omega
       have h2 : r.length ≤ fuel := by simp at h ⊢; omega
       by_cases hq : a = '"' ∧ b = '"' ∧ c = '"'
       · obtain ⟨rfl, rfl, rfl⟩ := hq
-        simp [Str.replaceSub.go, Python.escapeDoc, Str.startsWith, ih r h2]
+        simp [Str.replaceSub.go, Python.escapeQuotes, Str.startsWith, ih r h2]
       · have hs : Str.startsWith (a :: b :: c :: r) s%"\"\"\"" = false := by
           cases hh : Str.startsWith (a :: b :: c :: r) s%"\"\"\"" with
           | false => rfl
           | true => simp [Str.startsWith] at hh; exact absurd hh hq
         rw [Str.replaceSub.go, hs]
-        simp [Python.escapeDoc, hq, ih _ h1]
+        simp [Python.escapeQuotes, hq, ih _ h1]
 
-/-- the model's `escapeDoc` is `str::replace("\"\"\"", "\\\"\\\"\\\"")` -/
+/-- the model's `escapeQuotes` is `str::replace("\"\"\"", "\\\"\\\"\\\"")` -/
+theorem py_quotes_eq_replace (c : Str) :
+    Python.escapeQuotes c = Str.replaceSub c s%"\"\"\"" s%"\\\"\\\"\\\"" := by
+  simp [Str.replaceSub, py_quotes_go c.length c (Nat.le_refl _)]
+
+theorem py_backslashes_go (fuel : Nat) : ∀ s : Str, s.length ≤ fuel →
+    Str.replaceSub.go s%"\\" s%"\\\\" fuel s = Python.escapeBackslashes s := by
+  induction fuel with
+  | zero => intro s h; cases s with
+    | nil => rfl
+    | cons c t => simp at h
+  | succ fuel ih =>
+    intro s h
+    match s with
+    | [] => rfl
+    | a :: r =>
+      have h1 : r.length ≤ fuel := by simp at h ⊢; omega
+      have ih' := ih r h1
+      simp only [Python.escapeBackslashes, Str.replaceChar] at ih' ⊢
+      by_cases ha : a = '\\'
+      · subst ha
+        simp [Str.replaceSub.go, Str.startsWith, ih']
+      · simp [Str.replaceSub.go, Str.startsWith, ha, ih']
+
+/-- the model's `escapeBackslashes` is `str::replace('\\', "\\\\")` (a `char` pattern matches like the
+one-character string) -/
+theorem py_backslashes_eq_replace (c : Str) :
+    Python.escapeBackslashes c = Str.replaceSub c s%"\\" s%"\\\\" := by
+  simp [Str.replaceSub, py_backslashes_go c.length c (Nat.le_refl _)]
+
+/-- the model's `escapeDoc` is `.replace('\\', "\\\\").replace("\"\"\"", "\\\"\\\"\\\"")` -/
 theorem py_escape_eq_replace (c : Str) :
-    Python.escapeDoc c = Str.replaceSub c s%"\"\"\"" s%"\\\"\\\"\\\"" := by
-  simp [Str.replaceSub, py_escape_go c.length c (Nat.le_refl _)]
+    Python.escapeDoc c = Str.replaceSub (Str.replaceSub c s%"\\" s%"\\\\") s%"\"\"\"" s%"\\\"\\\"\\\"" := by
+  rw [← py_backslashes_eq_replace, ← py_quotes_eq_replace]; rfl
 
 /-! ## 9. the parser hands single-line entries to the renderers -/
 
